@@ -45,6 +45,18 @@ def hostile_requests(rng, model, full: bool) -> typing.List[typing.Tuple[str, by
         for view in reqs.VIEWS:
             data, tls = reqs.render(view, sel)
             add("bad:" + view, data, tls)
+    # a real object's selector with a '.' or empty component appended or inserted: names the same directory to the file
+    # system, is no selector the server ever advertised
+    for o in objs:
+        for suffix in (b"/.", b"/", b"/.\\", b"/%2e", b"/. "):
+            for view in ("gopher", "gopherp$", "http", "wap", "gemini", "spartan", "gophers"):
+                if reqs.VIEWS[view][0] in ("gopher", "gopherp") and suffix.startswith(b"/%"):
+                    continue
+                try:
+                    data, tls = reqs.render(view, o.selector.rstrip(b"/") + suffix, prequoted=suffix.startswith(b"/%") and all(c < 128 for c in o.selector))
+                except Exception:
+                    continue
+                add("alias-of-object:" + view, data, tls)
     # traversal / separator mutators
     for _ in range(60):
         o = rng.choice(objs)
@@ -227,7 +239,8 @@ def run_site(chk: Check, sc: Scratch, idx: int, nhist: int, histlen: int) -> Non
                     baseline[(data, tls)] = validate.normalize_ts(resp.data)
             chk.count("wellformed_requests", len(good))
             # B: hostile requests (each also on a pristine tree)
-            for label, data, tls in hostile_requests(rng, model, full):
+            hostile = hostile_requests(rng, model, full)
+            for label, data, tls in hostile:
                 resp = site.request(data, tls=tls, half_close=not label.startswith("keepopen:"))
                 run.judge(label, data, resp, ctx=hl_name)
                 chk.count("hostile_requests")
@@ -238,6 +251,13 @@ def run_site(chk: Check, sc: Scratch, idx: int, nhist: int, histlen: int) -> Non
                 driver.clean_server_files(root)
                 seq = [hr.choice(keys) for _ in range(histlen)]
                 for step, (data, tls) in enumerate(seq):
+                    # "whatever came before" includes other people's malformed and hostile requests
+                    for _ in range(hr.choice([0, 0, 1, 2])):
+                        hl_label, hdata, htls = hr.choice(hostile)
+                        site.request(hdata, tls=htls, half_close=not hl_label.startswith("keepopen:"))
+                        chk.count("hostile_requests_inside_histories")
+                        seq[step] = (data, tls)
+                        earlier_hostile = hdata
                     resp = site.request(data, tls=tls)
                     chk.count("history_requests")
                     got = validate.normalize_ts(resp.data)
